@@ -93,6 +93,13 @@ def run(ctx, repo, tier):
             len(loop.target.elts) == 2 and isinstance(loop.target.elts[1], ast.Name) and it.args:
         row = loop.target.elts[1].id
         it_txt = cpre.text(it.args[0])
+    if isinstance(it, ast.Call) and isinstance(it.func, ast.Name) and it.func.id == "zip" and isinstance(loop.target, ast.Tuple) and \
+            len(loop.target.elts) == len(it.args):
+        # for row, extra in zip(grid, per_row_values): rows are visited in grid order as long as the grid is one of the zipped sequences
+        for tg_, a_ in zip(loop.target.elts, it.args):
+            if isinstance(tg_, ast.Name) and cpre.text(a_) in ("self.full_grid", "self.get_full_grid()"):
+                row = tg_.id
+                it_txt = cpre.text(a_)
     reorder = [n for n in ast.walk(cpre.expand(it)) if (isinstance(n, ast.Call) and src(n.func).split(".")[-1] in
                ("reversed", "sorted", "flip", "flipud", "permutation", "shuffle", "unique", "sort")) or
                (isinstance(n, ast.Subscript) and const_slice(n) is not None and const_slice(n)[2] not in (None, 1))]
@@ -239,7 +246,43 @@ def run(ctx, repo, tier):
                 e = e.func.value
             else:
                 break
-        if seen_from_quat is None or unknown_step:
+        hand = None
+        if seen_from_quat is None and m is not None:
+            # matrices computed by a repository function for all rows and paired with the rows by zip(grid, matrices)
+            me = m
+            if isinstance(me, ast.Name) and isinstance(loop.target, ast.Tuple) and isinstance(it, ast.Call) and isinstance(it.func, ast.Name) and \
+                    it.func.id == "zip" and len(it.args) == len(loop.target.elts):
+                for tg_, src_ in zip(loop.target.elts, it.args):
+                    if isinstance(tg_, ast.Name) and tg_.id == me.id:
+                        me = cpre.expand(src_)
+            if isinstance(me, ast.Call) and isinstance(me.func, ast.Name):
+                r_ = repo.resolve_name(gen.module, me.func.id)
+                if r_ and r_[0] == "func":
+                    v_ = qmat_verdict(r_[1].node)
+                    if v_ is not None:
+                        hand = (r_[1], v_, me)
+        if hand is not None:
+            hf, (verdict, detail), mcall = hand
+            ctx.analysed(hf)
+            if verdict == "ok":
+                ctx.ok("PARITY", "C10.parity.rotation", f"hand-written conversion {hf.name}: all nine entries equal R(q) of the unit quaternion "
+                       "(x, y, z, w)", hf.where, derived=detail)
+            else:
+                ctx.violate("PARITY", "C10.parity.rotation", f"the hand-written quaternion-to-matrix conversion {hf.name} is not R(q): " +
+                            {"transposed": "it is the inverse rotation", "scalar_first": "it reads the quaternion scalar-first",
+                             "wrong": "an entry differs (the matrix is not orthogonal in general)"}[verdict], hf.where, src(mcall)[:120],
+                            witness=detail)
+            qa_ = strip_wrappers(mcall.args[0]) if mcall.args else None
+            cols = qa_.slice.elts if (isinstance(qa_, ast.Subscript) and isinstance(qa_.slice, ast.Tuple) and len(qa_.slice.elts) == 2) else None
+            okq_ = cols is not None and isinstance(cols[0], ast.Slice) and cols[0].lower is None and cols[0].upper is None and \
+                isinstance(cols[1], ast.Slice) and isinstance(cols[1].lower, ast.Constant) and cols[1].lower.value == 3 and \
+                (cols[1].upper is None or (isinstance(cols[1].upper, ast.Constant) and cols[1].upper.value == 7))
+            if okq_ and cpre.text(strip_wrappers(qa_.value)) in ("self.full_grid", "self.get_full_grid()"):
+                ctx.ok("LAYOUT", "C10.parity.quaternion", "the conversion receives columns [3:] of all grid rows, paired with the rows by zip", where)
+            else:
+                ctx.inconclusive("LAYOUT", "C10.parity.quaternion", "argument of the conversion not recognised as columns [3:] of the grid", where,
+                                 witness=src(qa_)[:100] if qa_ is not None else "")
+        elif seen_from_quat is None or unknown_step:
             ctx.inconclusive("PARITY", "C10.parity.rotation", "rotation matrix is not derived from Rotation.from_quat(...) by a recognised chain",
                              where, witness=(f"step .{unknown_step}() " if unknown_step else "") + (src(m)[:160] if m is not None else ""))
         else:
@@ -328,7 +371,48 @@ def run(ctx, repo, tier):
     else:
         ctx.inconclusive("ORD", "C10.one_frame", "number of frames per grid row not recognised", where,
                          witness=f"{len(yields)} yield(s), {len(top_yields)} at the top level of the loop body")
+    # every yielded frame must be an object of its own: a loop-invariant object whose coordinates are overwritten in each iteration makes
+    # all frames that a consumer keeps show the LAST row
+    ctx.instance("OWN")
+    if yields:
+        yv = yields[0].value
+        ynames = [n.id for n in ast.walk(yv) if isinstance(n, ast.Name)] if yv is not None else []
+        shared = [nm for nm in ynames if nm in pre_defs and nm not in assigned_in_loop]
+        # aliases (sub-objects) of the shared names defined before the loop
+        alias_of = {}
+        for nm, v_ in pre_defs.items():
+            roots = {x.id for x in ast.walk(v_) if isinstance(x, ast.Name)}
+            for sh_ in shared:
+                if sh_ in roots and isinstance(v_, (ast.Subscript, ast.Attribute)):
+                    alias_of[nm] = sh_
+        mutated = None
+        for st in ast.walk(ast.Module(body=body, type_ignores=[])):
+            tg_ = None
+            if isinstance(st, ast.Assign) and isinstance(st.targets[0], (ast.Attribute, ast.Subscript)):
+                tg_ = st.targets[0]
+            elif isinstance(st, ast.AugAssign) and isinstance(st.target, (ast.Attribute, ast.Subscript)):
+                tg_ = st.target
+            elif isinstance(st, ast.Call) and isinstance(st.func, ast.Attribute) and st.func.attr in MUTATORS:
+                tg_ = st.func
+            if tg_ is None:
+                continue
+            root = tg_
+            while isinstance(root, (ast.Attribute, ast.Subscript)):
+                root = root.value
+            if isinstance(root, ast.Name) and (root.id in shared or root.id in alias_of):
+                mutated = (st, alias_of.get(root.id, root.id))
+        if shared and mutated:
+            ctx.violate("OWN", "C10.frame_object", f"the generator yields the same object `{mutated[1]}` for every row and overwrites its "
+                        "coordinates in each iteration: frames that a consumer collects all show the placement of the last row", where,
+                        norm_stmt(mutated[0])[:140] if isinstance(mutated[0], ast.stmt) else src(mutated[0])[:140],
+                        witness=f"`{mutated[1]}` is created before the loop and is part of the yielded value")
+        elif shared:
+            ctx.inconclusive("OWN", "C10.frame_object", "the yielded value contains an object created before the loop", where, witness=str(shared))
+        else:
+            ctx.ok("OWN", "C10.frame_object", "each yielded frame is an object created in its own iteration", where)
     merges = [n for n in ast.walk(loop) if isinstance(n, ast.Call) and (repo.dotted_of(gen.module, n.func) or "").endswith("Merge")]
+    if not merges:
+        merges = [n for n in ast.walk(gen.node) if isinstance(n, ast.Call) and (repo.dotted_of(gen.module, n.func) or "").endswith("Merge")]
     if merges:
         a = [call_.text(x) for x in merges[0].args]
         if a == ["self.static_molecule.atoms", "self.moving_molecule.atoms"]:
@@ -560,3 +644,96 @@ def selection_siblings(ctx, repo, pid):
                 ctx.violate("PAIR", f"{pid}.selection.{f.cls.name}", "the second-molecule selection does not start after the n1 atoms of "
                             "molecule 1 / end at the last atom", f.where, src(j),
                             witness=f"derived bounds {vals[0].pretty()} : {vals[1].pretty()} (expected n1 + 1 : n1 + n2 + 1)")
+
+
+# ---------------------------------------------------------------------------------------------------------------------
+def qmat_verdict(fnode):
+    """A function that builds rotation matrices entry by entry from quaternion components: compare the nine entry polynomials with
+    R(q) of a unit quaternion (scalar-last: components unpacked as x, y, z, w in that order), modulo x^2+y^2+z^2+w^2 = 1.
+    -> (verdict, detail) with verdict in {'ok', 'transposed', 'scalar_first', 'wrong'} or None when the function is not of that shape."""
+    from ..alg import Poly
+    comp = None
+    for n in ast.walk(fnode):
+        if isinstance(n, ast.Assign) and len(n.targets) == 1 and isinstance(n.targets[0], ast.Tuple) and len(n.targets[0].elts) == 4 and \
+                all(isinstance(x, ast.Name) for x in n.targets[0].elts):
+            comp = [x.id for x in n.targets[0].elts]
+    if comp is None:
+        return None
+    sym = {c: Poly.sym(k) for c, k in zip(comp, ("q0", "q1", "q2", "q3"))}
+
+    def ev(e):
+        if isinstance(e, ast.Constant) and isinstance(e.value, (int, float)) and not isinstance(e.value, bool):
+            from fractions import Fraction
+            return Poly.const(Fraction(e.value).limit_denominator(10 ** 9))
+        if isinstance(e, ast.Name):
+            return sym.get(e.id)
+        if isinstance(e, ast.UnaryOp) and isinstance(e.op, (ast.USub, ast.UAdd)):
+            v = ev(e.operand)
+            return None if v is None else (Poly.const(0) - v if isinstance(e.op, ast.USub) else v)
+        if isinstance(e, ast.BinOp):
+            a, b = ev(e.left), ev(e.right)
+            if a is None or b is None:
+                return None
+            if isinstance(e.op, ast.Add):
+                return a + b
+            if isinstance(e.op, ast.Sub):
+                return a - b
+            if isinstance(e.op, ast.Mult):
+                return a * b
+            if isinstance(e.op, ast.Div) and b.is_const() and b.as_const() != 0:
+                return a / b
+            if isinstance(e.op, ast.Pow) and b.is_const() and b.as_const() == 2:
+                return a * a
+        return None
+    entries = {}
+    for n in ast.walk(fnode):
+        if isinstance(n, ast.Assign) and len(n.targets) == 1 and isinstance(n.targets[0], ast.Subscript):
+            t = n.targets[0]
+            idx = t.slice.elts if isinstance(t.slice, ast.Tuple) else [t.slice]
+            consts = [x.value for x in idx if isinstance(x, ast.Constant) and isinstance(x.value, int)]
+            if len(consts) == 2 and all(0 <= c <= 2 for c in consts):
+                v = ev(n.value)
+                if v is not None:
+                    entries[tuple(consts)] = v
+    # literal form: np.array([[..],[..],[..]])
+    if not entries:
+        for n in ast.walk(fnode):
+            if isinstance(n, (ast.List, ast.Tuple)) and len(n.elts) == 3 and all(isinstance(r, (ast.List, ast.Tuple)) and len(r.elts) == 3 for r in n.elts):
+                vals = {(i, j): ev(n.elts[i].elts[j]) for i in range(3) for j in range(3)}
+                if all(v is not None for v in vals.values()):
+                    entries = vals
+    if len(entries) != 9:
+        return None
+    x, y, z, w = (Poly.sym(k) for k in ("q0", "q1", "q2", "q3"))
+
+    def R(x, y, z, w):
+        return {(0, 0): 1 - 2 * (y * y + z * z), (0, 1): 2 * (x * y - z * w), (0, 2): 2 * (x * z + y * w),
+                (1, 0): 2 * (x * y + z * w), (1, 1): 1 - 2 * (x * x + z * z), (1, 2): 2 * (y * z - x * w),
+                (2, 0): 2 * (x * z - y * w), (2, 1): 2 * (y * z + x * w), (2, 2): 1 - 2 * (x * x + y * y)}
+    one = Poly.const(1)
+
+    def norm(p):
+        # reduce modulo the unit-norm relation: replace the square of the LAST component
+        return p      # entries are compared in both diagonal spellings below
+    def same(A, B):
+        for k in A:
+            d = A[k] - B[k]
+            if d.is_zero():
+                continue
+            # diagonal may be written as w^2 + x^2 - y^2 - z^2: differs from 1 - 2(y^2+z^2) by (x^2+y^2+z^2+w^2 - 1)
+            u = x * x + y * y + z * z + w * w - one
+            if (d - u).is_zero() or (d + u).is_zero():
+                continue
+            return k
+        return None
+    scalar_last = R(x, y, z, w)
+    scalar_first = R(y, z, w, x)       # the first unpacked component taken as the scalar
+    transposed = {(j, i): v for (i, j), v in scalar_last.items()}
+    if same(entries, scalar_last) is None:
+        return "ok", "entries equal R(q) for q = (x, y, z, w)"
+    if same(entries, transposed) is None:
+        return "transposed", "entries equal R(q)^T = R(q)^-1"
+    if same(entries, scalar_first) is None:
+        return "scalar_first", "entries equal R(q) with the FIRST component read as the scalar part"
+    k = same(entries, scalar_last)
+    return "wrong", f"entry [{k[0]},{k[1]}] is {entries[k].pretty()} but R(q)[{k[0]},{k[1]}] = {scalar_last[k].pretty()}"
